@@ -73,6 +73,7 @@ MCConfigs == {{ {cfgs} }}
 MCPure == {pure}
 MCInpl == {inpl}
 MCFixed == {C.tla_str(set(FIXED_DEVIATIONS))}
+MCNone == {{}}
 EmitInv == hist # <<>> => PrintT(ToJson([cfg |-> cfg, hist |-> hist]))
 ====
 """
@@ -82,7 +83,7 @@ def cfg_text(repaired, steps, pure, inpl, invariants, view=False, prop=True):
     inv = "\n".join("INVARIANT " + i for i in invariants)
     return f"""CONSTANTS
   UInfo <- HeapUnits
-  Fixed <- {"AllDevs" if repaired is True else "MCFixed"}
+  Fixed <- {"AllDevs" if repaired is True else ("MCNone" if repaired == "none" else "MCFixed")}
   Configs <- MCConfigs
   PureOps <- MCPure
   InplOps <- MCInpl
@@ -411,6 +412,61 @@ def run(replay_path=None, replay=None):
                      "histories": len(r.records)}
         return r
 
+    # ---- replay of one batch of emitted histories (batch by batch: the records of a TLC run are dropped before the next
+    #      run starts, and the worker processes are forked from a small parent)
+    acc = dict(n=0, nontriv=set(), failclasses={}, raise_mis=0, devnames=set(), ops_seen=set(), samples=[], idx=0)
+
+    def consume(records, src):
+        import gc
+        records.sort(key=lambda r: json.dumps([r["cfg"], [s_["a"] for s_ in r["hist"]]], sort_keys=True))
+        step = 40000
+        for lo in range(0, len(records), step):
+            jobs = []
+            for r in records[lo:lo + step]:
+                i = acc["idx"]; acc["idx"] += 1
+                # in the full run every prefix is a record of its own: judge the last step only; deep paths are judged entirely
+                cf = len(r["hist"]) - 1 if src == "full" else 0
+                jobs.append(dict(cfg=r["cfg"], hist=r["hist"], style="plain", seed=i, check_from=cf))
+                tabular = all(x["u"] in ("m", "c:m", "k:m", "s") for k in r["cfg"] for x in k["u"])
+                if tabular and rnd.random() < (0.35 if t == "quick" else 0.5):
+                    jobs.append(dict(cfg=r["cfg"], hist=r["hist"], style="table", seed=C.seed() * 7919 + i, check_from=cf))
+            gc.collect()
+            res = C.pmap(_safe_replay, jobs)
+            for job, evs in zip(jobs, res):
+                bad = False
+                for kind, det in evs:
+                    if kind == "machinery":
+                        raise C.MachineryError("replay of a C07 history crashed:\n" + str(det))
+                    if kind == "fail":
+                        bad = True
+                        scen = dict(cfg=job["cfg"], hist=job["hist"], style=job["style"], seed=job["seed"], check_from=job["check_from"],
+                                    text=brief(job))
+                        kf = V.fail(scen, det["expected"], det["observed"],
+                                    f"step {det['step']} ({det['op']}), object {det['obj']} ({det['role']}): " + det["clause"],
+                                    tags=det["tags"], failure=det["failure"])
+                        fk = f"{kf}:{det['failure']}:{','.join(det['tags'])}"
+                        acc["failclasses"][fk] = acc["failclasses"].get(fk, 0) + 1
+                    elif kind == "drift":
+                        V.drift(det)
+                    elif kind == "raise_mismatch":
+                        acc["raise_mis"] += 1
+                        if acc["raise_mis"] <= 5:
+                            V.notes.append("raise prediction: " + det)
+                if not bad:
+                    V.ok()
+                for s_ in job["hist"]:
+                    acc["ops_seen"].add(s_["a"]["op"])
+                    for d in s_["devs"]:
+                        acc["devnames"].add(d["d"])
+                if len(job["hist"]) >= 2 or any(s_["devs"] for s_ in job["hist"]):
+                    acc["nontriv"].add(hash(brief(job) + "|" + job["style"]))
+            if len(acc["samples"]) < 3 and jobs:
+                acc["samples"].append(jobs[len(jobs) // 3])
+            acc["n"] += len(jobs)
+            del jobs, res
+        del records[:]
+        gc.collect()
+
     deep_names = ("other_unit",) if t == "quick" else ("other_unit", "dB_same", "uncertain", "dimensionless")
     deep_confs = [CONFIGS[k] for k in deep_names]
     deep_pure = C.tla_str(set(REP_PURE_QUICK if t == "quick" else REP_PURE))
@@ -432,80 +488,45 @@ def run(replay_path=None, replay=None):
     # 1b. sensitivity: the pinned machine yields the aliasing counterexamples
     sens = {}
     for inv in ("Frame", "NoShare"):
-        rs = model("pinned_" + inv, [CONFIGS["other_unit"]], "AllPureOps", "InplaceOps", False, (2, 1, 1), [inv], emit=False, prop=False)
+        # (the transcription of the tree as it was pinned, all deviations on: the spec can tell the difference)
+        rs = model("pinned_" + inv, [CONFIGS["other_unit"]], "AllPureOps", "InplaceOps", "none", (2, 1, 1), [inv], emit=False, prop=False)
         sens[inv] = rs.violated or "none"
         if not rs.violated:
             raise C.MachineryError(f"the pinned machine does not violate {inv}: the spec lost its sensitivity")
     # 1c. every history of the full alphabet
-    recs = []
     full_runs = [("pinned_full", configs, full_bounds)] + ([("pinned_full_3", key_confs, (3, 1, 2))] if t != "quick" else [])
     for name, confs, bounds in full_runs:
         rf = model(name, confs, "AllPureOps", "InplaceOps", False, bounds, ["AllNamed"])
         if rf.violated:
             V.notes.append(f"TLC: {rf.violated} violated on the pinned machine: {rf.cex[:500]}")
-        recs += [dict(r, src="full") for r in rf.records if not (name == "pinned_full_3" and len(r["hist"]) < 3)]
+        rf.stdout = ""
+        consume([r for r in rf.records if not (name == "pinned_full_3" and len(r["hist"]) < 3)], "full")
         rf.records = None
     # 1d. deeper histories over representative operations (one path per distinct heap state)
     rd = model("pinned_deep", deep_confs, deep_pure, deep_inpl, False, deep_bounds, ["AllNamed"], view=True, prop=False)
-    recs += [dict(r, src="deep") for r in rd.records]
+    rd.stdout = ""
+    consume(rd.records, "deep")
     rd.records = None
     rk = model("pinned_kinds", [CONFIGS["mixed_kinds"], CONFIGS["decimal_right"]], C.tla_str(set(KINDS_PURE)), '{"to"}', False,
                (2, 2, 1) if t == "quick" else (3, 2, 1), ["AllNamed"], view=True, prop=False)
-    recs += [dict(r, src="deep") for r in rk.records]
+    rk.stdout = ""
+    consume(rk.records, "deep")
     rk.records = None
     if t != "quick":
         rd4 = model("pinned_deep4", deep4[0], deep4[1], deep4[2], False, deep4[3], ["AllNamed"], view=True, prop=False)
-        recs += [dict(r, src="deep") for r in rd4.records if len(r["hist"]) == 4]
+        rd4.stdout = ""
+        consume([r for r in rd4.records if len(r["hist"]) == 4], "deep")
         rd4.records = None
-    recs.sort(key=lambda r: (r["src"], json.dumps([r["cfg"], [s["a"] for s in r["hist"]]], sort_keys=True)))
-    # 2. replay
-    jobs = []
-    for i, r in enumerate(recs):
-        # in the full run every prefix is a record of its own: judge the last step only; deep paths are judged entirely
-        cf = len(r["hist"]) - 1 if r["src"] == "full" else 0
-        jobs.append(dict(cfg=r["cfg"], hist=r["hist"], style="plain", seed=i, check_from=cf))
-        tabular = all(x["u"] in ("m", "c:m", "k:m", "s") for k in r["cfg"] for x in k["u"])
-        if tabular and rnd.random() < (0.35 if t == "quick" else 0.5):
-            jobs.append(dict(cfg=r["cfg"], hist=r["hist"], style="table", seed=C.seed() * 7919 + i, check_from=cf))
-    res = C.pmap(_safe_replay, jobs)
-    nontriv = set()
-    failclasses, raise_mis, devnames = {}, 0, set()
-    ops_seen = set()
-    for job, evs in zip(jobs, res):
-        bad = False
-        for kind, det in evs:
-            if kind == "machinery":
-                raise C.MachineryError("replay of a C07 history crashed:\n" + str(det))
-            if kind == "fail":
-                bad = True
-                scen = dict(cfg=job["cfg"], hist=job["hist"], style=job["style"], seed=job["seed"], check_from=job["check_from"],
-                            text=brief(job))
-                kf = V.fail(scen, det["expected"], det["observed"], f"step {det['step']} ({det['op']}), object {det['obj']} ({det['role']}): " + det["clause"],
-                            tags=det["tags"], failure=det["failure"])
-                fk = f"{kf}:{det['failure']}:{','.join(det['tags'])}"
-                failclasses[fk] = failclasses.get(fk, 0) + 1
-            elif kind == "drift":
-                V.drift(det)
-            elif kind == "raise_mismatch":
-                raise_mis += 1
-                if raise_mis <= 5:
-                    V.notes.append("raise prediction: " + det)
-        if not bad:
-            V.ok()
-        for s in job["hist"]:
-            ops_seen.add(s["a"]["op"])
-            for d in s["devs"]:
-                devnames.add(d["d"])
-        if len(job["hist"]) >= 2 or any(s["devs"] for s in job["hist"]):
-            nontriv.add(brief(job) + "|" + job["style"])
+    nontriv, failclasses, raise_mis, devnames, ops_seen = acc["nontriv"], acc["failclasses"], acc["raise_mis"], acc["devnames"], acc["ops_seen"]
+    njobs = acc["n"]
     doc_np = ["np.sqrt", "np.cbrt", "np.power", "np.sin", "np.cos", "np.tan", "np.arcsin", "np.arccos", "np.arctan", "np.isnan", "np.isnat",
               "np.linspace", "np.logspace", "np.absolute", "np.abs", "np.round", "np.floor", "np.ceil", "np.iscomplexobj", "np.sum"]
     missing = [f for f in doc_np if f not in ops_seen]
     if missing:
         raise C.MachineryError(f"documented NumPy functions missing from the explored alphabet: {missing}")
     V.cov.update({
-        "states": states, "transitions": trans, "traces_validated_against_impl": len(jobs),
-        "evaluations": len(jobs), "distinct_nontrivial": len(nontriv),
+        "states": states, "transitions": trans, "traces_validated_against_impl": njobs,
+        "evaluations": njobs, "distinct_nontrivial": len(nontriv),
         "rule": "histories = every sequence of <= {} steps (3 for three key configurations in the thorough tier) with <= {} operation(s) of the full alphabet ({} operations incl. all documented "
                 "NumPy functions) and <= {} in-place methods, from 16 initial configurations (TLC, exhaustive), plus one path to every "
                 "distinct heap state of depth <= {} over 7-12 representative operations; each replayed on real objects with all live objects "
@@ -513,7 +534,7 @@ def run(replay_path=None, replay=None):
                     full_bounds[0], full_bounds[1], len(ops_seen), full_bounds[2], deep_bounds[0]),
         "samples": [dict(history=brief(j), style=j["style"], steps=[dict(op=s["a"]["op"], x=s["a"]["x"], y=s["a"]["y"], receiver=s["recv"],
                                                                          deviations=s["devs"], raises=s["raises"]) for s in j["hist"]])
-                    for j in (jobs[len(jobs) // 7], jobs[len(jobs) // 2], jobs[-1])],
+                    for j in acc["samples"]],
         "exhaustive": True, "tlc_runs": tlc,
         "spec_sensitivity": sens, "named_deviations_reached": sorted(devnames),
         "operations_in_alphabet": sorted(ops_seen), "failing_classes": failclasses,
